@@ -174,7 +174,9 @@ def h_special(sx):
                          ("{config.tags} and x", ["and", dtree, ["lit", "x"]]),
                          ("not {config.tags}", ["not", dtree]),
                          ("zzz or {config.tags}", ["or", ["lit", "zzz"], dtree]),
-                         ("{config.tags} or zzz and x", ["or", dtree, ["and", ["lit", "zzz"], ["lit", "x"]]])):
+                         ("{config.tags} or zzz and x", ["or", dtree, ["and", ["lit", "zzz"], ["lit", "x"]]]),
+                         # the placeholder may occur more than once in a term
+                         ("({config.tags} and x) or ({config.tags} and zzz)", ["or", ["and", dtree, ["lit", "x"]], ["and", dtree, ["lit", "zzz"]]])):
         if sx.params.get("after_v1"):
             # an earlier configuration of the same process chose the old dialect
             cfg0 = base_config(("--no-summary",))
